@@ -642,7 +642,20 @@ fn run_program(src: &str, path: Option<&str>) -> String {
             },
         }
     });
-    let so = out.0.lock().unwrap().clone();
+    // a script may print a caught error: its text carries a trace with line:column and a source
+    // excerpt, which legitimately change with the layout — those lines are dropped
+    let so: String = out
+        .0
+        .lock()
+        .unwrap()
+        .lines()
+        .filter(|l| {
+            let t = l.trim_start();
+            let excerpt = t.starts_with('|') || t.split_once('|').is_some_and(|(a, _)| !a.trim().is_empty() && a.trim().chars().all(|c| c.is_ascii_digit()));
+            !(l.starts_with("--- ") || excerpt)
+        })
+        .collect::<Vec<_>>()
+        .join("\n");
     match r {
         Ok(s) => format!("{}|{}", s, so),
         Err(p) => format!("panic:{}|{}", p, so),
@@ -1237,6 +1250,17 @@ fn worker_handle(line: &str) -> String {
         }
         if !fails.is_empty() && src.lines().any(|l| l.chars().count() > o.ll as usize) {
             oshapes.push("input_line_wider_than_line_length");
+        }
+        // clause 5 formats the first pass's output: F-C11-3 applies to that text as well (joining
+        // lines can put a non-ASCII identifier in front of a number literal)
+        if fails.iter().any(|f| f["clause"].as_str().is_some_and(|c| c.starts_with("5:"))) {
+            if let Ok(Ok(out1)) = kvh::catch(|| format(&src, o.to_fo())) {
+                if let Some(t1) = lex_all(&out1) {
+                    if !slice_shifted_tokens(&out1, &t1).is_empty() {
+                        oshapes.push("slice_shifted_in_first_pass_output");
+                    }
+                }
+            }
         }
         results.push(json!({"opt": o.text(), "fails": fails, "shapes": oshapes}));
     }
@@ -1989,12 +2013,12 @@ impl Gen {
                 let e = self.fresh("err");
                 if self.rng.chance(1, 4) {
                     self.line(ind, &format!("catch {e}: String"));
-                    self.line(ind + st, &format!("print 'string {{{e}}}'"));
+                    self.line(ind + st, &format!("print 'string', (type {e})"));
                     self.line(ind, "catch _other");
                     self.line(ind + st, "print 'other'");
                 } else {
                     self.line(ind, &format!("catch {e}"));
-                    self.line(ind + st, &format!("print 'caught {{{e}}}'"));
+                    self.line(ind + st, &format!("print 'caught', (type {e})"));
                 }
                 if self.rng.chance(1, 2) {
                     self.line(ind, "finally");
@@ -2179,6 +2203,7 @@ const FINDINGS: &[(&str, &str, &[&str])] = &[
     ("F-C11-1", "wildcard_import", &["2:reparse", "5:error-on-own-output", "3:behaviour"]),
     ("F-C11-2", "fmt_repr", &["2:ast", "3:behaviour", "6:literals"]),
     ("F-C11-3", "slice_shifted", &["1:panic", "2:", "3:", "4:", "5:", "6:"]),
+    ("F-C11-3", "slice_shifted_in_first_pass_output", &["5:"]),
     ("F-C11-4", "blank_after_header", &["2:reparse", "5:error-on-own-output", "3:behaviour"]),
     ("F-C11-5", "nested_chain_break", &["2:", "3:", "5:"]),
     ("F-C11-6", "input_line_wider_than_line_length", &["2:", "3:", "5:"]),
@@ -2870,7 +2895,7 @@ fn main() {
     cx.rep.bump_by("corpus_programs_distinct", corpus.len() as u64);
 
     // ---- 3. generated programs -----------------------------------------------------------------------------
-    let n_gen = if args.thorough() { 4000 } else { 500 };
+    let n_gen = if args.thorough() { 12000 } else { 500 };
     let n_opts_gen = if args.thorough() { 10 } else { 5 };
     let mut gen_ok = 0u64;
     for i in 0..n_gen {
@@ -2891,7 +2916,7 @@ fn main() {
 
     // ---- 4. token-neighbourhood mutants of corpus programs ----------------------------------------------------
     let n_mut_progs = if args.thorough() { parseable.len() } else { 160.min(parseable.len()) };
-    let per_prog = if args.thorough() { 12 } else { 5 };
+    let per_prog = if args.thorough() { 20 } else { 5 };
     let mut mut_ok = 0u64;
     for _ in 0..n_mut_progs {
         if parseable.is_empty() {
